@@ -171,6 +171,35 @@ def parse_doc(doc, fmt, as_dataset, mode, tmpdir):
     return dataset_rows(tgt) if as_dataset else {r + (None,) for r in graph_rows(tgt)}
 
 
+def parse_encoded(doc, fmt, as_dataset, mode, encoding, tmpdir):
+    """An XML document in another encoding (named in its XML declaration, or marked by a byte-order mark) handed over as bytes."""
+    tgt = Dataset() if as_dataset else Graph(bind_namespaces="none")
+    kw = {"format": fmt, "publicID": "http://base.invalid/doc"}
+    if encoding == "utf-8-bom":
+        data = b"\xef\xbb\xbf" + doc.encode("utf-8")
+    else:
+        assert doc.startswith('<?xml version="1.0" encoding="utf-8"?>')
+        data = doc.replace('encoding="utf-8"', 'encoding="%s"' % encoding, 1).encode(encoding)
+    if mode == "data-bytes":
+        tgt.parse(data=data, **kw)
+    elif mode == "source-bytesio":
+        tgt.parse(source=io.BytesIO(data), **kw)
+    elif mode == "file-bytesio":
+        tgt.parse(file=io.BytesIO(data), **kw)
+    else:
+        path = os.path.join(tmpdir, "enc.rdf")
+        with open(path, "wb") as f:
+            f.write(data)
+        if mode == "path":
+            tgt.parse(path, **kw)
+        else:
+            with open(path, "rb") as f:
+                tgt.parse(file=f, **kw)
+    return dataset_rows(tgt) if as_dataset else {r + (None,) for r in graph_rows(tgt)}
+
+
+ENCODINGS = ["utf-16", "iso-8859-1", "utf-8-bom"]
+BYTE_MODES = ["data-bytes", "source-bytesio", "file-bytesio", "path", "file-disk-binary"]
 MODES = ["data-str", "data-bytes", "source-bytesio", "source-stringio", "file-bytesio", "file-stringio", "path", "file-disk-binary", "file-disk-text"]
 
 
@@ -196,6 +225,19 @@ def check_doc(syntax, rows, flags, modes, tmpdir, plain_doc=None):
             viols.append((sig, {"document": doc[:1500], "parsed": sorted(got, key=repr)[:12], "expected": sorted(want, key=repr)[:12], "mode": mode}))
             if mode == "data-str":
                 break
+    if syntax == "xml" and not viols and len(modes) > 1 and "no-xml-decl" not in flags:
+        for enc in ENCODINGS:
+            if enc == "iso-8859-1" and any(ord(c) > 0xFF for c in doc):
+                continue
+            for mode in BYTE_MODES:
+                try:
+                    got = parse_encoded(doc, fmt, quads, mode, enc, tmpdir)
+                except Exception as e:  # noqa: BLE001
+                    viols.append(("input-mode|%s|%s|parse-raises|%s" % (mode, enc, type(e).__name__), {"document": doc[:1500], "exc": repr(e)[:300], "mode": mode, "encoding": enc}))
+                    continue
+                if not iso(got, want):
+                    viols.append(("input-mode|%s|%s|parsed-graph-differs-from-str-mode" % (mode, enc),
+                                  {"document": doc[:1500], "parsed": sorted(got, key=repr)[:12], "expected": sorted(want, key=repr)[:12], "mode": mode, "encoding": enc}))
     return viols, doc, applicable
 
 
@@ -222,7 +264,7 @@ def _batch(arg):
                     nontriv += 1
                 for sig, det in v:
                     viols.append({"sig": sig, "detail": det, "case": {"doc": [syntax, [list(map(lambda x: None if x is None else list(x), r)) for r in sorted(rows, key=repr)], sorted(fl)],
-                                                                      "mode": det.get("mode", "data-str")}})
+                                                                      "mode": det.get("mode", "data-str"), "encoding": det.get("encoding")}})
     finally:
         import shutil
         shutil.rmtree(tmpdir, ignore_errors=True)
@@ -377,6 +419,8 @@ def replay(ctx, case):
     try:
         mode = case.get("mode", "data-str")
         v, _, _ = check_doc(syntax, rows, frozenset(fl), ["data-str"] + ([mode] if mode != "data-str" else []), tmpdir)
+        if case.get("encoding"):
+            v = [x for x in v if x[1].get("encoding") == case["encoding"] and x[1].get("mode") == mode]
     finally:
         import shutil
         shutil.rmtree(tmpdir, ignore_errors=True)
